@@ -73,11 +73,11 @@ def run(cx):
         globs = [{"n": g, "has": g in res["globals"], "v": res["globals"].get(g, {"t": "nil"})} for g in r["globals"]]
         pieces = [{k: v for k, v in p.items() if k != "src"} for p in r["pieces"]]
         for p in pieces:
-            if p["kind"] in ("rejected", "interrupted"):
+            if p["kind"] in ("rejected", "interrupted", "exhausted"):
                 p.update({"ast": [], "hoist": [], "declares": False})
         cases.append({"id": r["id"], "pieces": pieces, "obs": obs, "globals": globs, "forward": r["forward"]})
         by_id[r["id"]] = r
-        if any(p["kind"] in ("rejected", "interrupted") for p in pieces) or len(pieces) > 2:
+        if any(p["kind"] in ("rejected", "interrupted", "exhausted") for p in pieces) or len(pieces) > 2:
             nontriv.add(json.dumps([p.get("src") for p in r["pieces"]]))
     cx.alive(skipped, len(rows), "incremental histories")
     mism, unknown = langlib.tlc_conform(cx, cases, spec="PiecesCheck", prefix="pieces", strip=())
